@@ -289,6 +289,9 @@ def check_ops(run, facts, cfg, mod, name, bits, signed, rep):
 
 
 def run(run, tier, load):
+    if tier == 'thorough':
+        import witness
+        witness.check(run, 'c15', 1)
     run.rule_text = ('one instance per (type x function x build profile), each an exhaustive interval x congruence evaluation over all operand '
                      'values; non-trivial = function found and evaluated')
     run.explanation = ('consts: TOTAL = 2^bits = MAX-MIN+1; new(v) is Some exactly on [MIN,MAX] with payload v; From<Rep> terminates, returns a value in range '
